@@ -2,8 +2,8 @@
 (* Model-checking / behaviour-generation wrapper for LruTimeCache.               *)
 EXTENDS LruTimeCache, TLC, Json
 CONSTANTS KEYS, CFGS, MAXAGE, DEPTH
-VARIABLES q, cfg, last, hist
-vars == <<q, cfg, last, hist>>
+VARIABLES q, cfg, last, hist, res
+vars == <<q, cfg, last, hist, res>>
 McCfgs == {[cap |-> 1, ttl |-> 2], [cap |-> 2, ttl |-> 2], [cap |-> 3, ttl |-> 1]}
 McCfgsBig == {[cap |-> c, ttl |-> t] : c \in 1..4, t \in 1..3}
 
@@ -14,12 +14,12 @@ Ops == [o : {"insert"}, k : KEYS, v : {1, 2}]
 
 NoOp == [o |-> "reset"]
 Init == /\ cfg \in CFGS /\ q = <<>>
-        /\ last = [op |-> NoOp, pre |-> <<>>, ret |-> None]
+        /\ last = [op |-> NoOp, pre |-> <<>>, ret |-> None] /\ res = [q |-> <<>>, ret |-> None]
         /\ hist = <<[o |-> "reset", cap |-> cfg.cap, ttl |-> cfg.ttl]>>
 Next == \E op \in Ops :
-          LET r == Step(q, cfg, op, MAXAGE) IN
-          /\ q' = r.q /\ UNCHANGED cfg
-          /\ last' = [op |-> op, pre |-> q, ret |-> r.ret]
+          /\ res' = Step(q, cfg, op, MAXAGE)
+          /\ q' = res'.q /\ UNCHANGED cfg
+          /\ last' = [op |-> op, pre |-> q, ret |-> res'.ret]
           /\ hist' = Append(hist, op)
 Spec == Init /\ [][Next]_vars
 View == <<q, cfg, last>>
